@@ -191,6 +191,12 @@ class Ctx:
                 nb3 = split_decisions(nb)
                 if nb3 is not nb:
                     nb = nb3
+            elif split_targets and b.kind in ('Fn', 'AssocFn'):
+                from .inline import split_literal_results
+                nb7 = split_literal_results(nb)
+                if nb7 is not None:
+                    nb7.inlined_from = set(getattr(nb, 'inlined_from', set())) | set(getattr(nb7, 'inlined_from', set()))
+                    nb = nb7
             done[b.path] = nb
             return nb
         bodies = []
